@@ -426,7 +426,9 @@ fn decode_to_sink<Sink, A>(
             },
         }
         input.pop_front(bytes_read as u32);
-        if input.is_empty() {
+        // At end of stream keep calling the decoder until it reports `InputEmpty`: after a
+        // malformed sequence (or a full buffer) it may still hold output to flush.
+        if input.is_empty() && !last {
             return;
         }
     }
